@@ -92,3 +92,55 @@ From V.Gen Require Surface.
 Theorem c13_store_entries_are_authenticated : Surface.ticket_cipher_is_gcm = true.
 Proof. vm_compute. reflexivity. Qed.
 Print Assumptions c13_store_entries_are_authenticated.
+
+(* ---- which handler answers a probe ---- *)
+From V.Lib Require Import Bytes.
+From V.Model Require Probe.
+From V.Proofs Require ProbeProofs.
+From V.Gen Require Probes.
+
+(* With the store down no request is answered "ready" by the readiness check, whatever the configured
+   paths and agents, the request path and its User-Agent. *)
+Theorem c13_never_ready_when_down : forall c path ua, Probe.probe c false path ua <> Probe.ReadyOK.
+Proof. exact ProbeProofs.never_ready_when_down. Qed.
+Print Assumptions c13_never_ready_when_down.
+
+(* The operator's ready path, asked for by a client that is not a ping agent: the answer is the store's
+   (500 while it is down) - unless the operator listed that very path among the ping paths. *)
+Theorem c13_ready_path_not_shadowed : forall c ua,
+  Probe.nonempty (Probe.ready_path c) = true ->
+  Probe.mem_str (Probe.ready_path c) (Probe.health_paths c) = false ->
+  Probe.mem_str ua (filter Probe.nonempty (Probe.health_uas c)) = false ->
+  Probe.probe c false (Probe.ready_path c) ua = Probe.NotReady /\ Probe.probe c true (Probe.ready_path c) ua = Probe.ReadyOK.
+Proof. exact ProbeProofs.ready_path_not_shadowed. Qed.
+Print Assumptions c13_ready_path_not_shadowed.
+
+(* the premises are met by the default configuration, with and without the GCP health checks *)
+Example c13_ready_default :
+  forall gcp, Probe.probe {| Probe.ping_path := s "/ping"; Probe.ready_path := s "/ready"; Probe.ping_ua := []; Probe.gcp_checks := gcp |}
+                false (s "/ready") (s "kube-probe/1.29") = Probe.NotReady.
+Proof. intros [|]; vm_compute; reflexivity. Qed.
+
+(* The wiring REGENERATED from oauthproxy.go buildPreAuthChain and the two middlewares on this run is the one
+   Model/Probe.v is written against: the path and agent lists start from the configured ping path / agent and
+   grow only by the GCP literals under opts.GCPHealthChecks; in both arms of opts.Logging.SilencePing the health
+   check precedes the readiness check, which is given opts.ReadyPath and the session store; the two handlers
+   have the modelled shape. *)
+Theorem c13_probe_wiring_pinned :
+  Probes.health_paths_initial = [s "opts.PingPath"] /\
+  Probes.health_paths_gcp = [s """/liveness_check"""; s """/readiness_check"""] /\
+  Probes.health_uas_initial = [s "opts.PingUserAgent"] /\
+  Probes.health_uas_gcp = [s """GoogleHC/1.0"""] /\
+  Probes.health_lists_other_writes = 0%nat /\
+  Probes.chain_silenced = [s "middleware.NewHealthCheck(healthCheckPaths,healthCheckUserAgents)"; s "middleware.NewReadynessCheck(opts.ReadyPath,sessionStore)"; s "middleware.NewRequestLogger()"] /\
+  Probes.chain_logged = [s "middleware.NewRequestLogger()"; s "middleware.NewHealthCheck(healthCheckPaths,healthCheckUserAgents)"; s "middleware.NewReadynessCheck(opts.ReadyPath,sessionStore)"] /\
+  Probes.health_request_shape = true /\ Probes.health_sets_drop_empty = 2%nat /\ Probes.ready_check_shape = true.
+Proof. repeat split; vm_compute; reflexivity. Qed.
+Print Assumptions c13_probe_wiring_pinned.
+
+(* the literals appended under opts.GCPHealthChecks are the model's *)
+Theorem c13_gcp_literals :
+  map (fun x => s """" ++ x ++ s """") Probe.gcp_paths = Probes.health_paths_gcp /\
+  [s """" ++ Probe.gcp_ua ++ s """"] = Probes.health_uas_gcp.
+Proof. split; vm_compute; reflexivity. Qed.
+Print Assumptions c13_gcp_literals.
